@@ -267,7 +267,7 @@ static bool no_oor_seg = false;   // C02_NO_OORSEG: sanitizer pass leaves out ge
 
 // ------------------------------------------------------------------ operations
 enum Kind { SETBIN, SETSINO, SETVIEW, SETSEGV, SETSEGS, SETREL, FILL, FILLFROM, FILLITER, ITERSET, ITERCOPY,
-            GETBIN, GETSINO, GETVIEW, GETSEGV, GETSEGS, GETREL, COPYTO, REOPEN, NKINDS };
+            GETBIN, GETSINO, GETVIEW, GETSEGV, GETSEGS, GETREL, COPYTO, REOPEN, WRITETOFILE, CLONEMEM, NKINDS };
 struct Op { int kind; int seg, ax, view, tang, tof; long pos; };
 
 template <class A2> static void put2(Store& s, A2& a, std::vector<long long>& vals) {
@@ -294,11 +294,11 @@ template <class A3> static std::vector<int> shape3(const A3& a) {
   return { a.get_min_index(), a.get_max_index(), s2[0], s2[1], s2[2], s2[3] };
 }
 
-static void reopen(vh::Json& j, Store& s) {
+static void reopen(vh::Json& j, Store& s, const std::string& header_name, bool prior_err = false) {
   // a second object is created from the header while the writer is still open
   shared_ptr<ProjData> r;
   std::string msg;
-  bool err = vh::threw([&] { r = ProjData::read_from_file(s.header_name); if (!r) throw std::string("null"); }, &msg);
+  bool err = prior_err || vh::threw([&] { r = ProjData::read_from_file(header_name); if (!r) throw std::string("null"); }, &msg);
   j.boolean("err", err);
   j.arr("geo0", geo_vector(*s.pdi)).raw("exam0", exam_json(*s.exam)).raw("examx0", exam_extra_json(*s.exam));
   if (err) { j.arr("geo", std::vector<int>()).raw("exam", "{}").raw("examx", "{}").raw("lay", "{}").boolean("pdiEq", false).boolean("examEq", false)
@@ -324,7 +324,7 @@ static void reopen(vh::Json& j, Store& s) {
 
 static void perform(vh::Trace& tr, Store& s, const Op& op) {
   static const char* names[] = { "SetBin", "SetSino", "SetView", "SetSegV", "SetSegS", "SetRel", "Fill", "FillFrom", "FillIter", "IterSet", "IterCopy",
-                                 "GetBin", "GetSino", "GetView", "GetSegV", "GetSegS", "GetRel", "CopyTo", "Reopen" };
+                                 "GetBin", "GetSino", "GetView", "GetSegV", "GetSegS", "GetRel", "CopyTo", "Reopen", "WriteToFile", "CloneMem" };
   vh::Json j(names[op.kind]);
   cur_call = names[op.kind];
   struct Leave { ~Leave() { cur_call = nullptr; } } leave;
@@ -440,10 +440,24 @@ static void perform(vh::Trace& tr, Store& s, const Op& op) {
     if (!err) for (float f : out) vals.push_back(as_int(f));
     break; }
   case REOPEN: {
-    reopen(j, s);
+    reopen(j, s, s.header_name);
     observe(j, s);
     tr.emit(j);
     return; }
+  case WRITETOFILE: {
+    // ProjData::write_to_file: a new header + data pair written from the store, then read back
+    const std::string stem = s.data_name.substr(0, s.data_name.size() - 2) + "_w";
+    bool werr = vh::threw([&] { if (pd.write_to_file(stem + ".hs") != Succeeded::yes) throw std::string("no"); });
+    reopen(j, s, stem + ".hs", werr);
+    std::remove((stem + ".hs").c_str()); std::remove((stem + ".s").c_str());
+    observe(j, s);
+    tr.emit(j);
+    return; }
+  case CLONEMEM: {
+    // ProjDataInMemory(const ProjData&): a copy in memory, read through its const iterators
+    err = vh::threw([&] { const ProjDataInMemory m(pd); for (auto it = m.begin_all(); it != m.end_all(); ++it) vals.push_back(as_int(*it)); }, &msg);
+    if (err) vals.clear();
+    break; }
   }
   j.boolean("err", err).arr("vals", vals);
   if (err) j.str("msg", msg.substr(0, 120));
@@ -472,8 +486,9 @@ static Op random_op(vh::Rng& rng, Store& s, bool writes_only) {
                                SETREL, SETREL, FILL, FILLFROM, FILLITER, ITERSET, ITERSET, ITERCOPY };
       k = w[rng.range(0, 21)];
     } else {
-      static const int g[] = { GETBIN, GETBIN, GETBIN, GETSINO, GETSINO, GETVIEW, GETVIEW, GETSEGV, GETSEGS, GETREL, COPYTO, REOPEN };
-      k = g[rng.range(0, 11)];
+      static const int g[] = { GETBIN, GETBIN, GETBIN, GETBIN, GETSINO, GETSINO, GETSINO, GETVIEW, GETVIEW, GETVIEW, GETSEGV, GETSEGV, GETSEGS, GETSEGS,
+                               GETREL, GETREL, COPYTO, COPYTO, REOPEN, REOPEN, WRITETOFILE, CLONEMEM };
+      k = g[rng.range(0, 21)];
     }
     if ((k == ITERSET || k == ITERCOPY) && !s.pdm) continue;
     if (k == REOPEN && s.header_name.empty()) continue;
